@@ -122,11 +122,16 @@ for st in [0] + [BLK - k for k in range(1, 15)]:
 
 
 # ----------------------------------------------- d. reader on arbitrary bytes
-def rd_obl(n, start, tier, timeout=900):
+def rd_obl(n, start, tier, timeout=900, fixlen=None):
     where = "0" if start == 0 else "32768-%d" % (BLK - start)
-    return Obl("d.reader-arbitrary-at%s-N%d" % (where, n), "C15/reader.c",
+    defs = {"VP_N": n, "VP_START": start, "VP_SLAB_SIZE": 64, "VP_SCRATCH": 64}
+    name = "d.reader-arbitrary-at%s-N%d" % (where, n)
+    if fixlen is not None:
+        defs["VP_FIXLEN"] = fixlen
+        name = "d.reader-chain-at%s-N%d-L%d" % (where, n, fixlen)
+    return Obl(name, "C15/reader.c",
                real=["log_reader.c", "util/buffer.c"], kit=RT_KIT,
-               defs={"VP_N": n, "VP_START": start, "VP_SLAB_SIZE": 64, "VP_SCRATCH": 64},
+               defs=defs,
                unwind=n + 3,
                # bounds = what the input size allows (payload <= n-7, <= n/7 physical records + a dropped
                # block + EOF per call); with unwind_is_violation a bound that is too small FAILS, never hides
@@ -141,7 +146,9 @@ def rd_obl(n, start, tier, timeout=900):
                tier=tier, timeout=timeout, cost=30 + 10 * n,
                desc="reader on arbitrary bytes == reference decoder: same records (count, length, bytes), "
                     "reporter called iff the reference reports (same byte counts, LDB_CORRUPTION), sticky EOF, terminates",
-               bounds="%d arbitrary bytes starting at file offset %s" % (n, where))
+               bounds="%d arbitrary bytes starting at file offset %s%s" % (
+                   n, where, "" if fixlen is None else
+                   ", except that the length fields of the back-to-back records are fixed to %d" % fixlen))
 
 
 D_QUICK = [(0, 0), (7, 0), (10, 0), (14, 0), (10, BLK - 3), (12, BLK - 9)]
@@ -150,6 +157,8 @@ for n, st in D_QUICK:
 for n in range(0, 25):
     if (n, 0) not in D_QUICK:
         OBLIGATIONS.append(rd_obl(n, 0, "thorough", timeout=1800))
+OBLIGATIONS.append(rd_obl(24, 0, "quick", fixlen=1))  # chains of 3 fragments (FIRST, bad/MIDDLE, LAST ...)
+OBLIGATIONS.append(rd_obl(32, 0, "thorough", timeout=3600, fixlen=1))
 OBLIGATIONS.append(rd_obl(21, BLK - 14, "thorough", timeout=3600))  # FIRST, bad record | LAST in the next block
 for k in range(1, 15):
     for n in (8, 12, 16):
